@@ -379,6 +379,65 @@ def run(ctx):
         ipt = W.expand(a[1])
         okip = is_call(ipt) and callee_name(ipt[1]) == "ip" and W.expand(ipt[2][0]) == dst
         ctx.check("send-wiring", "%s/address" % m, okip, "recorded for the destination's IP address", "%s is recorded for %s but the datagram went to %s" % (m, fmt(ipt), fmt(dst)), sr.loc(bb))
+    # ------------------------------------------------------------------ (5b) wiring in the receive loop
+    # every datagram taken off the socket (the Ok arm of recv_from) is recorded exactly once before the loop goes on or the function returns:
+    # as a request of the version it was routed as, or as invalid; for the sender's IP address.
+    cfn, cev, routes = sm.routing(ctx, W)
+    rb, rct, rcount, raddr = sm.recv_count_term(W)
+    okb = None
+    for bl in cfn.blocks:
+        if bl.idx in cfn.reachable() and bl.term["k"] == "switch":
+            cond = W.expand(cev.op(bl.term["op"], (bl.idx, "term")))
+            if cond[0] == "discr" and values.strip_payload(cond[1]) == rct:
+                cases = {c[0]: c[1] for c in bl.term["cases"]}
+                okb = cases[0] if 0 in cases else (bl.term["otherwise"] if 1 in cases else None)
+    if okb is None:
+        raise AnchorMissing("the match on recv_from's result in collect_requests")
+    crecs = {bb: t["fn"].get("trait_method") for bb, t in cfn.calls() if t["fn"].get("trait") == TRAIT}
+    hdrs = {l["header"] for l in cfn.loops() if rb in l["body"]}
+    counts = {okb: {0}}
+    work = [okb]
+    ends = {}
+    while work:
+        b = work.pop()
+        cs = {min(c + (1 if b in crecs else 0), 2) for c in counts[b]}
+        nxt = cfn.succ(b)
+        if cfn.blocks[b].term["k"] == "return" or not nxt:
+            if cfn.blocks[b].term["k"] == "return":
+                ends.setdefault(b, set()).update(cs)
+            continue
+        for n in nxt:
+            if n in hdrs:
+                ends.setdefault(b, set()).update(cs)
+                continue
+            if not cs <= counts.get(n, set()):
+                counts.setdefault(n, set()).update(cs)
+                work.append(n)
+    badp = sorted((b, sorted(c)) for b, c in ends.items() if c != {1})
+    ctx.check("receive-wiring", "one-record-per-datagram", not badp and bool(ends), "every received datagram is recorded exactly once before the next one is read (%d ways out of the Ok arm)" % len(ends),
+              "a datagram taken off the socket can be left unrecorded or recorded twice: the path leaving the iteration at %s records it %s times" %
+              (cfn.loc(badp[0][0]) if badp else None, badp[0][1] if badp else None), cfn.loc(badp[0][0]) if badp else cfn.loc(rb))
+    CIN = flow.must_facts(cfn, cev)
+    want = {"Google": "add_classic_request", "RfcDraft13": "add_ietf_request"}
+    nrec = 0
+    for bb, m in sorted(crecs.items()):
+        if m not in ("add_ietf_request", "add_classic_request", "add_invalid_request") or not cfn.reaches(okb, bb):
+            continue
+        nrec += 1
+        rels = flow.rel_facts_at(CIN, bb)
+        if m == "add_invalid_request":
+            okk = any(r[0] in ("Eq",) and isinstance(r[1], tuple) and r[1][0] == "discr" and is_call(values.strip_payload(r[1][1]), "nonce_from_request") and r[2] == ("int", 1) for r in rels)
+            whyk = "recorded on the Err arm of nonce_from_request"
+        else:
+            v = sm.version_fact(P, rels)
+            okk = want.get(v) == m
+            whyk = "recorded where the request was accepted as %s" % v
+        ctx.check("receive-wiring", "%s/kind" % m, okk, whyk, "%s is recorded on a path where the datagram was not classified that way (%s)" % (m, whyk), cfn.loc(bb))
+        ipt = W.expand(cev.call_args(bb)[1])
+        okip = is_call(ipt) and callee_name(ipt[1]) == "ip" and W.expand(ipt[2][0]) == W.expand(raddr)
+        ctx.check("receive-wiring", "%s/address" % m, okip, "recorded for the sender's IP address", "%s is recorded for %s, the datagram came from %s" % (m, fmt(ipt), fmt(raddr)), cfn.loc(bb))
+    ctx.floor("receive-wiring", nrec, 3, "request recordings in collect_requests (ietf, classic, invalid)")
+
     # send_client_stats: clear only after push
     sc = ctx.fn("roughenough::server::Server::send_client_stats")
     cev = W.ev(sc.path)
